@@ -133,6 +133,76 @@ def ty_equiv(a, b):
     return len(aa) == len(ab) and all(ty_equiv(x, y) for x, y in zip(aa, ab))
 
 
+def nesting_depth_checks(out):
+    """"through any depth": a type variable under every chain of 1-3 wrappers (4 for the generic dataclasses alone) drawn from
+    two generic dataclasses, List, Optional, Tuple[_, int] and Dict[str, _] -- e.g. Mid[Inner[T]], Box[List[G[T]]] -- as the
+    type of a field of a generic dataclass N.  For N[int], for Sub(N[T], Generic[T])[int] and for a plain subclass of N[int]:
+    the field type is the chain over int, data with an int at the leaf is accepted and data with a str there is refused."""
+    import itertools
+    import types as _types
+    import typing as t
+    import pane
+    T = t.TypeVar('T')
+    n = 0
+
+    class G(pane.PaneBase, t.Generic[T]):
+        x: T
+
+    class Box(pane.PaneBase, t.Generic[T]):
+        held: T
+    W = {
+        'G': (lambda a: G[a], lambda d: {'x': d}), 'Box': (lambda a: Box[a], lambda d: {'held': d}),
+        'List': (lambda a: t.List[a], lambda d: [d]), 'Opt': (lambda a: t.Optional[a], lambda d: d),
+        'Tup': (lambda a: t.Tuple[a, int], lambda d: [d, 0]), 'Dict': (lambda a: t.Dict[str, a], lambda d: {'k': d}),
+    }
+    chains = [c for k in (1, 2, 3) for c in itertools.product(W, repeat=k)] + list(itertools.product(('G', 'Box'), repeat=4))
+
+    def over(chain, leaf):
+        ty = leaf
+        for w in reversed(chain):
+            ty = W[w][0](ty)
+        return ty
+
+    def data(chain, leaf):
+        d = leaf
+        for w in reversed(chain):
+            d = W[w][1](d)
+        return d
+    with warnings.catch_warnings():
+        warnings.simplefilter('ignore')
+        for chain in chains:
+            label = '['.join(chain) + '[T' + ']' * len(chain)
+            try:
+                ann = over(chain, T)
+                N = _types.new_class('N', (pane.PaneBase, t.Generic[T]), {}, lambda ns: ns.update({'__annotations__': {'f': ann}, '__module__': __name__}))
+                S = _types.new_class('S', (N[T], t.Generic[T]), {}, lambda ns: ns.update({'__annotations__': {}, '__module__': __name__}))
+                C = _types.new_class('C', (N[int],), {}, lambda ns: ns.update({'__annotations__': {}, '__module__': __name__}))
+                targets = [('N[int]', N[int]), ('Sub(N[T], Generic[T])[int]', S[int]), ('a subclass of N[int]', C)]
+            except Exception as e:
+                out.violation(f'C17:nesting-depth:{type(e).__name__}', f'a generic dataclass with a field typed {label}: declaring / subscripting raised {type(e).__name__}: {str(e)[:160]}', {'chain': list(chain)})
+                continue
+            want = over(chain, int)
+            good, bad = {'f': data(chain, 1)}, {'f': data(chain, 'not an int')}
+            for how, cls in targets:
+                n += 1
+                got = {f.name: f.type for f in cls.__pane_info__.fields}.get('f')
+                if not ty_equiv(got, want) and repr(got).replace('typing.', '').lower() != repr(want).replace('typing.', '').lower():
+                    out.violation('C17:nesting-depth:field-type', f'field f: {label} of N; in {how} it has type {got!r}, expected {want!r}', {'chain': list(chain), 'how': how})
+                    continue
+                try:
+                    cls.from_data(good)
+                except Exception as e:
+                    out.violation('C17:nesting-depth:rejects-valid', f'field f: {label}; {how}.from_data({good!r}) raised {type(e).__name__}: {str(e)[:160]}', {'chain': list(chain), 'how': how})
+                    continue
+                try:
+                    x = cls.from_data(bad)
+                    out.violation('C17:nesting-depth:not-enforced', f'field f: {label}; {how}.from_data({bad!r}) accepted a str where the substituted type has int: {x!r}', {'chain': list(chain), 'how': how})
+                except pane.ConvertError:
+                    pass
+    return n
+
+
+
 GENERIC_CASES = '''
 T = t.TypeVar('T'); U = t.TypeVar('U'); V = t.TypeVar('V'); W = t.TypeVar('W')
 class G(pane.PaneBase, t.Generic[T, U]):
@@ -462,6 +532,7 @@ def options_checks(rng, out):
 
 def run(ctx, out):
     out.evaluations += shared_typevar_checks(out)
+    out.evaluations += nesting_depth_checks(out)
     import families as _famgp
     out.evaluations += _famgp.generic_parameter_twins(out, PROP)
     rng = random.Random(ctx['seed'])
